@@ -389,6 +389,9 @@ class DictList(list):
     def insert(self, index: int, entity: Object) -> None:
         """Insert entity before index."""
         self._check(entity.id)
+        # list.insert accepts negative and out-of-range indices
+        length = len(self)
+        index = max(0, length + index) if index < 0 else min(index, length)
         list.insert(self, index, entity)
         # all subsequent entries now have been shifted up by 1
         _dict = self._dict
@@ -480,19 +483,27 @@ class DictList(list):
         if isinstance(i, slice):
             # In this case, y needs to be a list. We will ensure all
             # the id's are unique
+            y = list(y)
+            seen = set()
             for obj in y:  # need to be setting to a list
                 self._check(obj.id)
-                # Insert a temporary placeholder so we catch the presence
-                # of a duplicate in the items being added
-                self._dict[obj.id] = None
+                # catch the presence of a duplicate in the items being added
+                if obj.id in seen:
+                    raise ValueError(f"id {str(obj.id)} is already present in list")
+                seen.add(obj.id)
             list.__setitem__(self, i, y)
             self._generate_index()
             return
-        # in case a rename has occurred
-        if self._dict.get(self[i].id) == i:
-            self._dict.pop(self[i].id)
+        # normalize negative indices, raises IndexError when out of range
+        i = range(len(self))[i]
+        old_id = self[i].id
         the_id = y.id
-        self._check(the_id)
+        # in case a rename has occurred
+        replaces_entry = self._dict.get(old_id) == i
+        if not (replaces_entry and the_id == old_id):
+            self._check(the_id)
+        if replaces_entry:
+            self._dict.pop(old_id)
         list.__setitem__(self, i, y)
         self._dict[the_id] = i
 
@@ -503,6 +514,8 @@ class DictList(list):
         if isinstance(removed, list):
             self._generate_index()
             return
+        # normalize negative indices
+        index = range(len(self) + 1)[index]
         _dict = self._dict
         _dict.pop(removed.id)
         for i, j in _dict.items():
